@@ -44,6 +44,23 @@ def ref_challenge(tau, stream):
     return c
 
 
+TBL4 = [sum(1 for t in (b & 15, b >> 4) if t < 9) for b in range(256)]
+
+
+def three_block_pairs(rng, want):
+    import hashlib
+    out = []
+    seed = bytes(rng.randrange(256) for _ in range(56))
+    k = rng.getrandbits(48)
+    while len(out) < want:
+        k += 1
+        s64 = k.to_bytes(8, "little") + seed
+        nonce = k % 11
+        if sum(map(TBL4.__getitem__, hashlib.shake_256(s64 + nonce.to_bytes(2, "little")).digest(272))) < 256:
+            out.append((s64, nonce))
+    return out
+
+
 def gen(tier, rng):
     out = []
     reps = 20 if tier == "quick" else 1500
@@ -63,6 +80,7 @@ def gen(tier, rng):
             a = [rng.randint(-9, 9) for _ in range(256)]
             for buflen in sorted(set([len(buf), max(0, len(buf) - 1), max(0, len(buf) - 2), min(2, len(buf))])):
                 out.append(Case("rej_uniform", "-", [a, alen, buf, buflen], ["in_domain", "crafted"]))
+    tb_pairs = three_block_pairs(rng, 2 if tier == "quick" else 12)
     for cp in ALL:
         p = Par(cp)
         ebufs = [bytes([x]) for x in (0x00, 0x8F, 0xF8, 0x9E, 0xE9, 0xFF, 0x88, 0x99, 0xEE, 0x45)]
@@ -73,6 +91,11 @@ def gen(tier, rng):
                 a = [rng.randint(-9, 9) for _ in range(256)]
                 for buflen in sorted(set([len(buf), max(0, len(buf) - 1)])):
                     out.append(Case("rej_eta", cp, [a, alen, buf, buflen], ["in_domain", "crafted"]))
+        if p.eta == 4:
+            # rare path with the REAL sponge (the XOF tap bypasses the sponge state): (seed, nonce) pairs whose first two
+            # SHAKE-256 blocks yield fewer than 256 coefficients, so that a third block is squeezed (about 1 pair in 50 000)
+            for seed, nonce in tb_pairs:
+                out.append(Case("uniform_eta", cp, [seed, nonce], ["in_domain", "seeded", "third-block"]))
         for nonce in (0, 1, 255, 256, 0xFFFF, rng.randrange(65536)):
             seed = bytes(rng.randrange(256) for _ in range(64))
             out.append(Case("uniform_eta", cp, [seed, nonce], ["in_domain", "seeded"]))
